@@ -124,6 +124,8 @@ Pool == <<
   << <<Ob(Fl(Fl(XWhere(Var(AA), Z, Cmp(">", Var(Z), Lit(IntV(1)))), "reverse", <<>>), "join", <<Lit(Str(<<43>>))>>))>>, <<T(<<51, 43, 50>>)>> >>,
   (* 27 ... a condition that fails: the error is the object's *)
   << <<T(<<10>>), Ob(XWhere(Var(AA), Z, DivZero))>>, <<T(<<10>>), Ob(DivZero)>> >>,
+  (* 28 a tag that hands back, wrapped, a located error of another template's render: located here *)
+  << <<T(<<10, 10>>), If(Lit(Bool(TRUE)), <<T(<<10>>), [t |-> "xsub"]>>)>>, <<T(<<10, 10>>), If(Lit(Bool(TRUE)), <<T(<<10>>), Ob(DivZero)>>)>> >>,
   (* 24 the probe: what the statements before left behind *)
   << <<T(<<59>>), Ob(Var(X)), T(<<44>>), Ob(Var(V)), T(<<44>>), Ob(Var(Z)), T(<<44>>), Ob(Var(PP)), T(<<59>>)>>,
      <<T(<<59>>), Ob(Var(X)), T(<<44>>), Ob(Var(V)), T(<<44>>), Ob(Var(Z)), T(<<44>>), Ob(Var(PP)), T(<<59>>)>> >>
@@ -163,7 +165,7 @@ Files == << <<FLiq, FBody>> >>
 Cache == << <<GLiq, GBody>> >>
 EmitCase == st.status # "run" =>
   /\ PrintT(ToJson([id |-> IdOf(p), kind |-> "render", prog |-> ProgOf(p), env |-> Env, path |-> TopPath, usedir |-> TRUE,
-                    files |-> Files, cache |-> Cache, line0 |-> 0]))
+                    files |-> Files, cache |-> Cache, line0 |-> 1, chkline |-> TRUE]))
   \* the twin as well: the implementation must agree with itself
   /\ PrintT(ToJson([id |-> "t" \o IdOf(p), kind |-> "render", prog |-> TwinOf(p), env |-> Env, path |-> TopPath, usedir |-> TRUE,
                     files |-> Files, cache |-> Cache, line0 |-> 0]))
